@@ -11,6 +11,7 @@ tvars == <<vars, t, l>>
 Ev == Traces[t].ev
 
 TraceInit == /\ t \in 1..Len(Traces) /\ l = 1
+             /\ ("req" \in DOMAIN Traces[t] => Traces[t].limexp = TableSize(Traces[t].req))     \* the object holds at least the requested table
              /\ limexp = Traces[t].limexp /\ n = 0 /\ nres = 0 /\ ok = TRUE /\ last = <<"init", 0>>
 
 TraceNext ==
